@@ -13,9 +13,9 @@ pub const DIRS: [&str; 3] = ["", "sub", "sub/deep"];
 pub const SHAPES: [&str; 3] = ["a.txt.txtpp", "b.txtpp.txt", "c.txtpp"];
 pub const DOTTED: [&str; 3] = ["g.h.i.txtpp", "g2.h.txtpp.i", "g3.h.txtpp"];
 pub const LOOKALIKES: [&str; 6] = ["txtpp", ".txtpp", ".txtpp.x", "d.txtpp.b.c", "e.txt", "F.TXTPP"];
-pub const SPELLINGS: [&str; 21] = [
+pub const SPELLINGS: [&str; 23] = [
     "a.txtpp.txt", "sub/b.txt.txtpp", "sub/", "./", ".", "sub", "sub/deep", "./sub/..", "a.txt", "a.txt.txtpp", "./a.txt", "sub/../a.txt", "ABS:a.txt", "sub/b.txt", "sub/deep/c", "missing.txt",
-    "missing.txtpp", "e.txt", "txtpp", "subx", "sub/deeper/",
+    "missing.txtpp", "e.txt", "txtpp", "subx", "sub/deeper/", "subl", "la.txt",
 ];
 
 fn join(d: &str, n: &str) -> String {
@@ -95,7 +95,28 @@ impl TreeSpec {
             };
             tfile(&mut t, &s, body);
         }
+        if self.dirlike {
+            // second names through symbolic links: a directory link and (if its target exists) a file link
+            t.insert("subl".into(), Node::Link("sub".into()));
+            if self.masks[0] & 1 == 1 {
+                t.insert("la.txt.txtpp".into(), Node::Link("a.txt.txtpp".into()));
+            }
+        }
         t
+    }
+    /// the spelling of an input with symbolic links replaced by their targets
+    pub fn through_links(&self, inp: &str) -> String {
+        if !self.dirlike {
+            return inp.to_string();
+        }
+        let p = inp.trim_end_matches('/');
+        if p == "subl" || p.starts_with("subl/") {
+            return format!("sub{}", &p[4..]);
+        }
+        if self.masks[0] & 1 == 1 && (p == "la.txt" || p == "la.txt.txtpp") {
+            return p.replacen("la.txt", "a.txt", 1);
+        }
+        inp.to_string()
     }
     pub fn expected_output(&self, s: &str) -> Vec<u8> {
         if s == "a.txt.txtpp" && self.includes() {
@@ -119,6 +140,7 @@ pub fn expected_set(spec: &TreeSpec, inputs: &[String], recursive: bool, mode: &
     let mt = MTree::from_tree(&t);
     let mut set = BTreeSet::new();
     for inp in inputs {
+        let inp = &spec.through_links(inp);
         let p = resolve("", inp).ok_or("escapes base")?;
         if mt.is_dir(&p) {
             for s in spec.sources() {
@@ -389,7 +411,7 @@ pub fn run_c11(tier: &str) -> i32 {
     let lists1 = input_lists(1);
     rep.set("trees", json!(specs.len()));
     rep.set("input_lists", json!(lists.len()));
-    rep.set("bounds", json!(format!("{} trees (3 directory levels x subsets of 3 source-name shapes, look-alikes in every directory, dotted-stem and include variants) x input lists of length <= 2 (other modes: 1) [{}] over 21 spellings x recursive on/off x build/needed/verify/clean x base absolute/relative", specs.len(), if thorough { 2 } else { 1 })));
+    rep.set("bounds", json!(format!("{} trees (3 directory levels x subsets of 3 source-name shapes, look-alikes in every directory, dotted-stem and include variants) x input lists of length <= 2 (other modes: 1) [{}] over 23 spellings x recursive on/off x build/needed/verify/clean x base absolute/relative", specs.len(), if thorough { 2 } else { 1 })));
     rep.assume("the reference set-of-sources function (harness/src/etree.rs: expected_set) is written from the property statement");
     rep.st(specs.len());
     sharded_dyn(&rep, par_threads(), |_k, _n, next, rep| {
